@@ -101,6 +101,38 @@ Theorem C15_mlog_ok : forall (t0 f0 : Z) (ops : list op),
 Proof. exact mlog_invariant. Qed.
 Print Assumptions C15_mlog_ok.
 
+(* ------------------------------------------------------------------ C09 pieces proved over the same model
+   (re-exported by Props/C09.v): lookups by timestamp / by id, and deleting the current snapshot. *)
+
+(* With non-decreasing commit timestamps (equal ones allowed; the sort in get_snapshot_by_timestamp is stable),
+   lookup by timestamp returns the MOST RECENTLY COMMITTED retained snapshot not newer than t -- or nothing when
+   there is none -- after any history. *)
+Theorem C09_by_timestamp : forall (t0 f0 : Z) (ops : list op) (t : Z),
+  fresh_ops f0 ops -> nondecreasing_ts ops ->
+  option_map sid (by_timestamp (md (replay t0 f0 ops)) t) =
+  option_map sid (last_opt (filter (fun h => memZ (sid h) (sids (md (replay t0 f0 ops))) && (ts h <=? t))
+                                   (hist_of t0 f0 ops))).
+Proof. exact by_timestamp_most_recent. Qed.
+Print Assumptions C09_by_timestamp.
+
+(* Deleting the current snapshot succeeds and repoints the table to the most recently committed survivor
+   (nothing when no snapshot is left), whatever the timestamps. *)
+Theorem C09_delete_current : forall (t0 f0 : Z) (ops : list op) (id : Z),
+  fresh_ops f0 ops ->
+  cur (md (replay t0 f0 ops)) = Some id -> In id (sids (md (replay t0 f0 ops))) ->
+  exists m', delete_snapshot (md (replay t0 f0 ops)) id = Some m' /\
+    cur m' = option_map sid (last_opt (filter (fun h => memZ (sid h) (sids (md (replay t0 f0 ops))) && negb (sid h =? id))
+                                              (hist_of t0 f0 ops))).
+Proof. exact delete_current_most_recent. Qed.
+Print Assumptions C09_delete_current.
+
+(* Lookup by id returns the retained snapshot with that id: a committed snapshot, unchanged but for its parent. *)
+Theorem C09_by_id : forall (t0 f0 : Z) (ops : list op) (id : Z) (s : snap),
+  fresh_ops f0 ops -> by_id (md (replay t0 f0 ops)) id = Some s ->
+  In s (snaps (md (replay t0 f0 ops))) /\ sid s = id /\ exists h, In h (hist_of t0 f0 ops) /\ same_but_parent h s.
+Proof. exact by_id_retained. Qed.
+Print Assumptions C09_by_id.
+
 (* ------------------------------------------------------------------ non-vacuity *)
 (* A concrete history meets `fresh_ops`, and drives the model through every mutator: three appends (one with a
    delete), delete_snapshot of the middle snapshot, both properties, then a transaction mixing append / expire /
@@ -122,6 +154,9 @@ Example C15_nonvacuous :
   /\ mlog (md (replay 1000 0 ops_ex)) = [(1000, 5); (1000, 6)]
   /\ map (map ekey) (match snaps (md (replay 1000 0 ops_ex)) with [_; s4] => mlist s4 | _ => [] end)
      = [[((1, 3), 3, 3)]; [((0, 4), 4, 4)]]
+  /\ nondecreasing_ts (firstn 2 ops_ex) /\ ~ nondecreasing_ts ops_ex
+  /\ option_map sid (by_timestamp (md (replay 1000 0 ops_ex)) 1000) = Some 1
+  /\ option_map cur (delete_snapshot (md (replay 1000 0 ops_ex)) 4) = Some (Some 1)
   /\ (* a cyclic parent map: 1 -> 2 -> 3 -> 1, nothing kept but 9: the link is dropped *)
      gen_repoint_one [(1, Some 2); (2, Some 3); (3, Some 1)] [9] (Some 1) = Some None
   /\ (* an acyclic chain 4 -> 3 -> 2 -> 1 -> -1 with {1} kept: nearest surviving ancestor of 4's parent 3 is 1 *)
@@ -134,6 +169,11 @@ Proof.
     - repeat constructor.
     - repeat constructor; simpl; intuition discriminate. }
   split; [vm_compute; reflexivity|]. split; [vm_compute; reflexivity|]. split; [vm_compute; reflexivity|].
+  split; [vm_compute; reflexivity|]. split; [vm_compute; reflexivity|].
+  split; [unfold nondecreasing_ts; simpl; repeat constructor; lia|].
+  split.
+  { unfold nondecreasing_ts. simpl. intro Hs. inversion Hs as [|? ? ? Hall]; subst.
+    inversion Hall as [|? ? ? Hall2]; subst. inversion Hall2 as [|? ? Hbad ?]; subst. lia. }
   split; [vm_compute; reflexivity|]. split; [vm_compute; reflexivity|]. split; [vm_compute; reflexivity|].
   split; [|vm_compute; reflexivity].
   (* acyclicity of the chain: every link strictly decreases the id *)
